@@ -86,6 +86,7 @@ REQUIRED_BUCKETS = ["fmt/xml", "fmt/pb", "kind/full", "kind/scenario", "same-wri
                     "edit-then-write", "query-then-write", "queryw-then-write",
                     "own-path-rewritten-by-other/skip", "own-path-rewritten-by-other/ask", "own-path-rewritten-by-other/always"]
 WORKERS = {"quick": 1, "thorough": 8}
+EXTRA_MODULES = ["CRProps.T15"]      # translator tie: Gen.SrcC15 (regenerated from the repo every run) = hand model
 
 # Every constructor parameter, method parameter, public member, instance attribute and module global of the writer classes
 # that can influence what C15 observes, with how the generator varies it.  check_dimensions() compares the table with the real
